@@ -10,7 +10,7 @@
 (***************************************************************************)
 EXTENDS Integers, Sequences, FiniteSets, TLC, Json
 Trace == ndJsonDeserialize("assemble_trace.ndjson")
-A == INSTANCE Assemble WITH Size <- 4, MaxOuters <- 0, MaxInners <- 0, os <- <<>>, is <- <<>>
+A == INSTANCE Assemble WITH Size <- 4, MaxOuters <- 0, MaxInners <- 0, CatSel <- {}, os <- <<>>, is <- <<>>
 VARIABLE l
 Init == l \in 1..Len(Trace)
 Next == UNCHANGED l
